@@ -292,30 +292,23 @@ theorem stepWord_ok (cls : Classes) (ch : Char) (st : St) (h : Holders) (line co
         exact St.le_trans (scanUrl_le _) (St.le_trans (next_le _) h1)
     · simp only [StepOK, and_self, and_true]; exact h1
 
-theorem stepVariable_ok (cls : Classes) (st : St) (h : Holders) (line col : Nat) :
-    StepOK st line col (stepVariable cls st h line col) := by
-  unfold stepVariable
-  -- the state after the optional second sign rune
-  generalize hx : (match peek st with
-    | some c =>
-      if c = '%' then (Kind.envVar, (next st).2)
-      else if c = '#' then (Kind.runtimeInfo, (next st).2)
-      else if c = '@' then (Kind.flag, (next st).2)
-      else (Kind.variable, st)
-    | none => (Kind.variable, st) : Kind × St) = x
-  have hx1 : x.2.le st := by
-    subst hx
-    split
+theorem variableKind_le (st : St) : (variableKind st).2.le st := by
+  unfold variableKind
+  split
+  · split
+    · exact next_le st
     · split
       · exact next_le st
       · split
         · exact next_le st
-        · split
-          · exact next_le st
-          · exact St.le_refl _
-    · exact St.le_refl _
-  obtain ⟨kind, st1⟩ := x
-  simp only [] at hx1 ⊢
+        · exact St.le_refl _
+  · exact St.le_refl _
+
+theorem stepVariable_ok (cls : Classes) (st : St) (h : Holders) (line col : Nat) :
+    StepOK st line col (stepVariable cls st h line col) := by
+  unfold stepVariable
+  have hx1 := variableKind_le st
+  simp only []
   split
   · simp only [StepOK, and_self, and_true]
     exact St.le_trans (scanString_le _ _) (St.le_trans (next_le _) hx1)
@@ -326,5 +319,251 @@ theorem stepVariable_ok (cls : Classes) (st : St) (h : Holders) (line col : Nat)
         exact St.le_trans (scanIdentifier_le _ _ _) (St.le_trans (next_le' heq) hx1)
       · simp only [StepOK, and_self, and_true]; exact hx1
     · simp only [StepOK, and_self, and_true]; exact hx1
+
+/-- what one `Scan()` step guarantees relative to the state `st0` it started in -/
+def StepSpec (st0 : St) : Step → Prop
+  | .tok t _ st' _ =>
+    st'.le st0 ∧ (∃ s : St, s.le st0 ∧ t.line = s.line ∧ t.col = s.col) ∧
+    (isEof t.kind = false → st'.rest.length < st0.rest.length)
+  | .comment st' => st'.le st0 ∧ st'.rest.length < st0.rest.length
+
+theorem StepOK.lift {st0 stS st : St} {step : Step} (hS : stS.le st0) (hn : st.le stS)
+    (hlt : st.rest.length < stS.rest.length) (hok : StepOK st st.line st.col step) : StepSpec st0 step := by
+  cases step with
+  | tok t e st' h' =>
+    obtain ⟨h1, h2, h3⟩ := hok
+    refine ⟨St.le_trans h1 (St.le_trans hn hS), ⟨st, St.le_trans hn hS, h2, h3⟩, fun _ => ?_⟩
+    unfold St.le at *; omega
+  | comment st' =>
+    have h1 : st'.le st := hok
+    refine ⟨St.le_trans h1 (St.le_trans hn hS), ?_⟩
+    unfold St.le at *; omega
+
+theorem dispatch_ok (cls : Classes) (m : Mode) (ch : Char) (st : St) (h : Holders) :
+    StepOK st st.line st.col (dispatch cls m ch st h) := by
+  unfold dispatch
+  simp only []
+  by_cases c1 : m.forPrepared = true ∧ ch = '?'
+  · rw [if_pos c1]; exact ⟨St.le_refl _, rfl, rfl⟩
+  rw [if_neg c1]
+  by_cases c2 : m.forPrepared = true ∧ ch = ':' ∧ peekIs st (isIdentRune cls) = true
+  · rw [if_pos c2]; exact stepNamedPlaceholder_ok ..
+  rw [if_neg c2]
+  by_cases c3 : isDecimal ch = true
+  · rw [if_pos c3]; exact stepNumber_ok ..
+  rw [if_neg c3]
+  by_cases c4 : isIdentRune cls ch = true
+  · rw [if_pos c4]; exact stepWord_ok ..
+  rw [if_neg c4]
+  by_cases c5 : isOperatorRune ch = true
+  · rw [if_pos c5]; exact stepOperator_ok ..
+  rw [if_neg c5]
+  by_cases c6 : ch = '@'
+  · rw [if_pos c6]; exact stepVariable_ok ..
+  rw [if_neg c6]
+  by_cases c7 : ch = '$'
+  · rw [if_pos c7]; exact stepExternal_ok ..
+  rw [if_neg c7]
+  by_cases c8 : ch = '/' ∧ peek st = some '*'
+  · rw [if_pos c8]; exact St.le_trans (scanComment_le _ _) (next_le st)
+  rw [if_neg c8]
+  by_cases c9 : ch = '-' ∧ peek st = some '-'
+  · rw [if_pos c9]; exact St.le_trans (scanLineComment_le _) (next_le st)
+  rw [if_neg c9]
+  by_cases c10 : ch = '\'' ∨ ((!m.ansiQuotes) = true ∧ ch = '"')
+  · rw [if_pos c10]; exact stepString_ok ..
+  rw [if_neg c10]
+  by_cases c11 : ch = '`' ∨ (m.ansiQuotes = true ∧ ch = '"')
+  · rw [if_pos c11]; exact stepQuotedIdent_ok ..
+  rw [if_neg c11]
+  exact ⟨St.le_refl _, rfl, rfl⟩
+
+theorem scanStep_spec (cls : Classes) (m : Mode) (st0 : St) (h : Holders) :
+    StepSpec st0 (scanStep cls m st0 h) := by
+  unfold scanStep
+  have hS := skipSpaces_le st0
+  simp only []
+  split
+  · exact ⟨hS, ⟨_, hS, rfl, rfl⟩, by simp [isEof]⟩
+  · rename_i ch st heq
+    exact StepOK.lift hS (next_le' heq) (next_lt _ _ _ heq) (dispatch_ok ..)
+
+/-- the token loop: with more fuel than runes ahead it never runs out of fuel, and every token it
+    returns carries the position of a state reached by moving forward from `st0` -/
+theorem scanAll_spec (cls : Classes) (m : Mode) (st0 : St) :
+    ∀ (n : Nat) (st : St) (h : Holders), st.le st0 →
+      (st.rest.length < n → (scanAll cls m n st h).exhausted = false) ∧
+      (∀ t ∈ (scanAll cls m n st h).toks, ∃ s : St, s.le st0 ∧ t.line = s.line ∧ t.col = s.col) ∧
+      ((scanAll cls m n st h).err.isSome = true → (scanAll cls m n st h).toks ≠ [])
+  | 0, st, h, _ => by simp [scanAll]
+  | n + 1, st, h, hst => by
+    have hs := scanStep_spec cls m st h
+    unfold scanAll
+    split
+    · rename_i st' heq
+      rw [heq] at hs
+      obtain ⟨h1, h2⟩ := hs
+      have ih := scanAll_spec cls m st0 n st' h (St.le_trans h1 hst)
+      refine ⟨fun hlt => ih.1 (by omega), ih.2⟩
+    · rename_i t e st' h' heq
+      rw [heq] at hs
+      obtain ⟨h1, ⟨s, hs1, hs2, hs3⟩, h3⟩ := hs
+      have hpos : ∃ s : St, s.le st0 ∧ t.line = s.line ∧ t.col = s.col := ⟨s, St.le_trans hs1 hst, hs2, hs3⟩
+      split
+      · refine ⟨fun _ => rfl, ?_, by simp⟩
+        intro t' ht'
+        simp at ht'; subst ht'; exact hpos
+      · split
+        · refine ⟨fun _ => rfl, ?_, by simp⟩
+          intro t' ht'
+          simp at ht'; subst ht'; exact hpos
+        · rename_i hne
+          have hne' : isEof t.kind = false := by simpa using hne
+          have ih := scanAll_spec cls m st0 n st' h' (St.le_trans h1 hst)
+          refine ⟨fun hlt => ?_, ?_, ?_⟩
+          · have := h3 hne'
+            simpa using ih.1 (by omega)
+          · intro t' ht'
+            simp at ht'
+            rcases ht' with rfl | ht'
+            · exact hpos
+            · exact ih.2.1 t' ht'
+          · intro _; simp
+
+/-! ## scanning the text `escapeWith q s` followed by the closing quote -/
+
+theorem next_plain (r : Char) (tl : List Char) (l c : Nat) (h1 : r ≠ '\r') (h2 : r ≠ '\n') :
+    next ⟨r :: tl, l, c⟩ = (some r, ⟨tl, l, c + 1⟩) := by
+  simp [next, h1, h2]
+
+/-- an ordinary rune inside a quoted literal is copied -/
+theorem ssl_plain (q r : Char) (tl : List Char) (l c n : Nat)
+    (h1 : r ≠ '\r') (h2 : r ≠ '\n') (h3 : r ≠ q) (h4 : r ≠ '\\') :
+    scanStringLoop q (n + 1) ⟨r :: tl, l, c⟩ =
+      (r :: (scanStringLoop q n ⟨tl, l, c + 1⟩).1, (scanStringLoop q n ⟨tl, l, c + 1⟩).2.1,
+        (scanStringLoop q n ⟨tl, l, c + 1⟩).2.2) := by
+  rw [scanStringLoop, next_plain r tl l c h1 h2]
+  simp [h3, h4]
+
+/-- a backslash before a rune that is neither a backslash nor the quote is copied on its own -/
+theorem ssl_backslash_other (q x : Char) (tl : List Char) (l c n : Nat)
+    (hq : q ≠ '\\') (h3 : x ≠ q) (h4 : x ≠ '\\') :
+    scanStringLoop q (n + 1) ⟨'\\' :: x :: tl, l, c⟩ =
+      ('\\' :: (scanStringLoop q n ⟨x :: tl, l, c + 1⟩).1, (scanStringLoop q n ⟨x :: tl, l, c + 1⟩).2.1,
+        (scanStringLoop q n ⟨x :: tl, l, c + 1⟩).2.2) := by
+  rw [scanStringLoop, next_plain '\\' _ l c (by decide) (by decide)]
+  simp [peek, h3, h4, Ne.symm hq]
+
+/-- a backslash before a backslash or the quote: both runes are copied -/
+theorem ssl_backslash_pair (q x : Char) (tl : List Char) (l c n : Nat)
+    (hq : q ≠ '\\') (hx : x = '\\' ∨ x = q) (h1 : x ≠ '\r') (h2 : x ≠ '\n') :
+    scanStringLoop q (n + 1) ⟨'\\' :: x :: tl, l, c⟩ =
+      ('\\' :: x :: (scanStringLoop q n ⟨tl, l, c + 2⟩).1, (scanStringLoop q n ⟨tl, l, c + 2⟩).2.1,
+        (scanStringLoop q n ⟨tl, l, c + 2⟩).2.2) := by
+  rw [scanStringLoop, next_plain '\\' _ l c (by decide) (by decide)]
+  have hp : (x = '\\' ∨ x = q) := hx
+  simp [peek, Ne.symm hq, hp, next_plain x tl l (c + 1) h1 h2]
+
+/-- the closing quote (not followed by another quote) ends the literal -/
+theorem ssl_close (q : Char) (tl : List Char) (l c n : Nat)
+    (h1 : q ≠ '\r') (h2 : q ≠ '\n') (h : tl.head? ≠ some q) :
+    scanStringLoop q (n + 1) ⟨q :: tl, l, c⟩ = ([], true, ⟨tl, l, c + 1⟩) := by
+  rw [scanStringLoop, next_plain q tl l c h1 h2]
+  simp [peek, h]
+
+/-- `\\x` for an escape letter `x`: two iterations, both runes copied -/
+theorem ssl_backslash_letter (q x : Char) (tl : List Char) (l c n : Nat)
+    (hq : q ≠ '\\') (h1 : x ≠ '\r') (h2 : x ≠ '\n') (h3 : x ≠ q) (h4 : x ≠ '\\') :
+    scanStringLoop q (n + 2) ⟨'\\' :: x :: tl, l, c⟩ =
+      ('\\' :: x :: (scanStringLoop q n ⟨tl, l, c + 2⟩).1, (scanStringLoop q n ⟨tl, l, c + 2⟩).2.1,
+        (scanStringLoop q n ⟨tl, l, c + 2⟩).2.2) := by
+  rw [ssl_backslash_other q x tl l c (n + 1) hq h3 h4, ssl_plain q x tl l (c + 1) n h1 h2 h3 h4]
+
+theorem ssl_escaped (q : Char) (hq : q = '\'' ∨ q = '`') (rest : List Char) (hrest : rest.head? ≠ some q) :
+    ∀ (s : List Char) (l c n : Nat), (escapeWith q s).length + 1 ≤ n →
+      scanStringLoop q n ⟨escapeWith q s ++ q :: rest, l, c⟩ =
+        (escapeWith q s, true, ⟨rest, l, c + (escapeWith q s).length + 1⟩)
+  | [], l, c, n, hn => by
+    obtain ⟨k, rfl⟩ : ∃ k, n = k + 1 := ⟨n - 1, by simp [escapeWith] at hn; omega⟩
+    have h1 : q ≠ '\r' := by rcases hq with rfl | rfl <;> decide
+    have h2 : q ≠ '\n' := by rcases hq with rfl | rfl <;> decide
+    simp [escapeWith, ssl_close q rest l c k h1 h2 hrest]
+  | r :: rs, l, c, n, hn => by
+    have hqb : q ≠ '\\' := by rcases hq with rfl | rfl <;> decide
+    have hqr : q ≠ '\r' := by rcases hq with rfl | rfl <;> decide
+    have hqn : q ≠ '\n' := by rcases hq with rfl | rfl <;> decide
+    -- two-rune escapes `\\x` with an escape letter x
+    have letter : ∀ x : Char, escRune q r = ['\\', x] → x ≠ '\r' → x ≠ '\n' → x ≠ q → x ≠ '\\' →
+        scanStringLoop q n ⟨escapeWith q (r :: rs) ++ q :: rest, l, c⟩ =
+          (escapeWith q (r :: rs), true, ⟨rest, l, c + (escapeWith q (r :: rs)).length + 1⟩) := by
+      intro x hx h1 h2 h3 h4
+      simp only [escapeWith, hx] at hn ⊢
+      obtain ⟨k, rfl⟩ : ∃ k, n = k + 2 := ⟨n - 2, by simp at hn; omega⟩
+      have ih := ssl_escaped q hq rest hrest rs l (c + 2) k (by simp at hn; omega)
+      simp only [List.cons_append, List.nil_append]
+      rw [ssl_backslash_letter q x _ l c k hqb h1 h2 h3 h4, ih]
+      simp; omega
+    have pair : ∀ x : Char, escRune q r = ['\\', x] → (x = '\\' ∨ x = q) →
+        scanStringLoop q n ⟨escapeWith q (r :: rs) ++ q :: rest, l, c⟩ =
+          (escapeWith q (r :: rs), true, ⟨rest, l, c + (escapeWith q (r :: rs)).length + 1⟩) := by
+      intro x hx hxx
+      have h1 : x ≠ '\r' := by rcases hxx with rfl | rfl <;> first | decide | exact hqr
+      have h2 : x ≠ '\n' := by rcases hxx with rfl | rfl <;> first | decide | exact hqn
+      simp only [escapeWith, hx] at hn ⊢
+      obtain ⟨k, rfl⟩ : ∃ k, n = k + 1 := ⟨n - 1, by simp at hn; omega⟩
+      have ih := ssl_escaped q hq rest hrest rs l (c + 2) k (by simp at hn; omega)
+      simp only [List.cons_append, List.nil_append]
+      rw [ssl_backslash_pair q x _ l c k hqb hxx h1 h2, ih]
+      simp; omega
+    have hql : ∀ x : Char, x = 'a' ∨ x = 'b' ∨ x = 'f' ∨ x = 'n' ∨ x = 'r' ∨ x = 't' ∨ x = 'v' →
+        x ≠ '\r' ∧ x ≠ '\n' ∧ x ≠ q ∧ x ≠ '\\' := by
+      intro x hx
+      rcases hq with rfl | rfl <;> rcases hx with rfl | rfl | rfl | rfl | rfl | rfl | rfl <;> decide
+    by_cases c1 : r = '\x07'
+    · have := hql 'a' (by simp); exact letter 'a' (by simp [escRune, c1]) this.1 this.2.1 this.2.2.1 this.2.2.2
+    by_cases c2 : r = '\x08'
+    · have := hql 'b' (by simp); exact letter 'b' (by simp [escRune, c2]) this.1 this.2.1 this.2.2.1 this.2.2.2
+    by_cases c3 : r = '\x0c'
+    · have := hql 'f' (by simp); exact letter 'f' (by simp [escRune, c3]) this.1 this.2.1 this.2.2.1 this.2.2.2
+    by_cases c4 : r = '\n'
+    · have := hql 'n' (by simp); exact letter 'n' (by simp [escRune, c4]) this.1 this.2.1 this.2.2.1 this.2.2.2
+    by_cases c5 : r = '\r'
+    · have := hql 'r' (by simp); exact letter 'r' (by simp [escRune, c5]) this.1 this.2.1 this.2.2.1 this.2.2.2
+    by_cases c6 : r = '\t'
+    · have := hql 't' (by simp); exact letter 't' (by simp [escRune, c6]) this.1 this.2.1 this.2.2.1 this.2.2.2
+    by_cases c7 : r = '\x0b'
+    · have := hql 'v' (by simp); exact letter 'v' (by simp [escRune, c7]) this.1 this.2.1 this.2.2.1 this.2.2.2
+    by_cases c8 : r = q
+    · exact pair q (by unfold escRune; rw [if_neg c1, if_neg c2, if_neg c3, if_neg c4, if_neg c5, if_neg c6, if_neg c7, if_pos c8]) (Or.inr rfl)
+    by_cases c9 : r = '\\'
+    · exact pair '\\' (by unfold escRune; rw [if_neg c1, if_neg c2, if_neg c3, if_neg c4, if_neg c5, if_neg c6, if_neg c7, if_neg c8, if_pos c9]) (Or.inl rfl)
+    -- an ordinary rune
+    have hx : escRune q r = [r] := by
+      unfold escRune; rw [if_neg c1, if_neg c2, if_neg c3, if_neg c4, if_neg c5, if_neg c6, if_neg c7, if_neg c8, if_neg c9]
+    simp only [escapeWith, hx] at hn ⊢
+    obtain ⟨k, rfl⟩ : ∃ k, n = k + 1 := ⟨n - 1, by simp at hn; omega⟩
+    have ih := ssl_escaped q hq rest hrest rs l (c + 1) k (by simp at hn; omega)
+    simp only [List.cons_append, List.nil_append]
+    rw [ssl_plain q r _ l c k c5 c4 c8 c9, ih]
+    simp; omega
+
+/-- white space skipping stops at once at a rune that is not white space -/
+theorem skipSpaces_nonspace (c : Char) (tl : List Char) (l k : Nat) (h : isSpace c = false) :
+    skipSpaces ⟨c :: tl, l, k⟩ = ⟨c :: tl, l, k⟩ := by
+  simp [skipSpaces, whileNext, peekIs, peek, h]
+
+/-- `Scan()` on a text that starts (at line `l`, after `k` runes) with a rune that is neither white space nor a line break -/
+theorem scanStep_head (cls : Classes) (m : Mode) (c : Char) (tl : List Char) (l k : Nat) (h : Holders)
+    (hs : isSpace c = false) (h1 : c ≠ '\r') (h2 : c ≠ '\n') :
+    scanStep cls m ⟨c :: tl, l, k⟩ h = dispatch cls m c ⟨tl, l, k + 1⟩ h := by
+  unfold scanStep
+  simp only [skipSpaces_nonspace c tl l k hs, next_plain c tl l k h1 h2]
+
+theorem scanString_escaped (q : Char) (hq : q = '\'' ∨ q = '`') (s rest : List Char) (l c : Nat)
+    (hrest : rest.head? ≠ some q) :
+    scanString q ⟨escapeWith q s ++ q :: rest, l, c⟩ =
+      (escapeWith q s, true, ⟨rest, l, c + (escapeWith q s).length + 1⟩) := by
+  unfold scanString
+  exact ssl_escaped q hq rest hrest s l c _ (by simp)
 
 end Csvq.Scan
